@@ -294,4 +294,32 @@ def C17(tier, seed):
     }
 
 
-REGISTRY = {"C02": C02, "C17": C17, "C11": C11, "C20": C20, "C09": C09, "C19": C19, "C18": C18, "C13": C13, "C07": C07, "C14": C14, "C15": C15}
+def C03(tier, seed):
+    def st(part, req, env, shards=8):
+        e = {"PART": part}
+        e.update(env)
+        return Stage(part, ("Gen_Quantile", "Gen_Quantile.cfg"), ("Trace_Quantile", "Trace_Quantile.cfg"),
+                     env=e, required=req, shards=shards)
+    q = tier == "quick"
+    ranks = st("ranks", ["C03.no_panic", "C03.domain", "C03.kind", "C03.in_range", "C03.ranks", "C03.brackets",
+                         "C03.entry_points_agree", "C03.product_observed", "C03.index", "C03.rounding_boundary",
+                         "C03.rejects.TooFewSamples", "C03.rejects.InvalidQuantile", "C03.rejects.TooFewSuccesses",
+                         "C03.rejects.TooFewFailures", "C03.kind.two", "C03.kind.upper", "C03.kind.lower"],
+               {"Q_N": 70 if q else 400})
+    ranks.mc = [("MC_BigNum", "MC_BigNum.cfg", {}, 1)]
+    perm = st("perm", ["C03.data_outcome", "C03.data_elements"] + ["C03.entry." + x for x in ("ci", "sorted", "max_n", "max_1024")]
+              + ["C03.type." + x for x in ("i32", "f64", "char", "str")], {"P_N": 6 if q else 7})
+    shuf = st("shuffle", ["C03.data_outcome", "C03.data_elements"], {"Q_SHUFFLES": 60 if q else 600}, shards=4)
+    return {
+        "stages": [ranks, perm, shuf],
+        "exhaustive": True,
+        "rule": "ranks: every n in 0..70 (400) x 35 dyadic quantiles (incl. 0, 1, outside [0,1]) + products at half-integers and their float "
+                "neighbours + NaN x 5 levels x 3 kinds through ci_indices, Stats::ci, Stats::index; data: EVERY permutation of 4 multiset shapes "
+                "(ties) of size 4..6 (7) through quantile::ci and a rotating entry point / element type, seeded shuffles of samples up to 1007 "
+                "elements through ci, ci_sorted_unchecked, ci_max_size for i32/f64/char/&str. Ranks are judged against floor(p n) of the crate's own "
+                "Wilson bounds (C02 decides those) with exact float modelling; elements against the sorted bag.",
+        "assumptions": NUM_TRUST[:2] + ["the Wilson bounds used for the ranks are the crate's own (validated by C02)", NUM_TRUST[3]],
+    }
+
+
+REGISTRY = {"C03": C03, "C02": C02, "C17": C17, "C11": C11, "C20": C20, "C09": C09, "C19": C19, "C18": C18, "C13": C13, "C07": C07, "C14": C14, "C15": C15}
